@@ -219,6 +219,53 @@ def pipeline_case(ctx, rng, idx):
         rep.fail(sig + ':after:' + (labels[-1].split(':')[0] if labels else 'source'), case, detail)
 
 
+AGGS = ['sum', 'avg', 'median', 'max', 'min', 'first', 'last', 'count', 'any', 'set', 'array', 'counters']
+SRC_TYPES = {
+    'integer': [3, 4, 10, 1, 2, 2, 7, 0, -5],
+    'number': [1.5, 2.25, 10.0, 1.0, 2.0, 2.0, 7.5, 0.0, -5.5],
+    'string': ['b', 'a', 'zz', '', 'q', 'q', 'x y', 'A', 'é'],
+    'date': [datetime.date(2020, 1, d) for d in (3, 4, 10, 1, 2, 2, 7, 9, 5)],
+    'boolean': [True, False, True, False, False, True, True, True, False],
+}
+
+
+def join_matrix(ctx):
+    """every aggregator x source-column type x join flavour, over groups of 1, 2, 3 and 0 source rows"""
+    rep = ctx.report
+    from dataflows.base.schema_validator import ValidationError
+    from tableschema.exceptions import TableSchemaException
+    keys = ['g1', 'g2', 'g2', 'g3', 'g3', 'g3', 'g4', 'g4', 'g5']
+    for typ, vals in SRC_TYPES.items():
+        src = [{'k': k, 'val': v} for k, v in zip(keys, vals)]
+        tgt = [{'k': k, 'other': i} for i, k in enumerate(['g1', 'g2', 'g3', 'g0', 'g2'])]
+        for agg in AGGS:
+            if agg in ('sum', 'avg', 'median') and typ not in ('integer', 'number'):
+                continue   # arithmetic over a non-numeric column is not a well-typed use
+            for flavour in ('inner', 'half-outer', 'full-outer', 'self'):
+                case = {'join-matrix': {'type': typ, 'aggregate': agg, 'flavour': flavour}}
+                spec = {'out': {'name': 'val', 'aggregate': agg}}
+                try:
+                    with quiet():
+                        if flavour == 'self':
+                            res, dp, _ = Flow(copy.deepcopy(src), DF.set_type('val', type=typ),
+                                              DF.join_with_self('res_1', ['k'], {'k': None, **spec})).results()
+                        else:
+                            res, dp, _ = Flow(copy.deepcopy(src), DF.set_type('val', type=typ), copy.deepcopy(tgt),
+                                              DF.join('res_1', ['k'], 'res_2', ['k'], spec, mode=flavour)).results()
+                except Exception as e:  # noqa
+                    cause = getattr(e, 'cause', e)
+                    if isinstance(cause, (ValidationError, TableSchemaException)):
+                        rep.case('join-matrix', case, nontrivial=False)
+                        rep.fail('join-matrix-fails:%s:%s:%s' % (agg, typ, type(cause).__name__), case, repr(e)[:300])
+                    else:
+                        # the aggregator itself rejects this column type (sum of dates, ...): not a well-typed pipeline
+                        rep.hist('join_matrix_rejected', '%s:%s' % (agg, typ))
+                    continue
+                rep.case('join-matrix', case)
+                for sig, detail in check_result(res, dp):
+                    rep.fail('%s:join-matrix:%s:%s' % (sig, agg, typ), case, detail)
+
+
 def probe(finding):
     if finding['signature'].startswith('row-has-undeclared-field:after:join'):
         with quiet():
@@ -240,6 +287,7 @@ def run(ctx):
     rng = ctx.rng('main')
     for idx in range(ctx.n(120, 2000)):
         pipeline_case(ctx, rng, idx)
+    join_matrix(ctx)
     # the model side of the same steps
     P.run_cases(ctx, LAYER_A, None, ctx.n(400, 5000), salt='corr')
 
